@@ -188,47 +188,52 @@ fn sparse_random(ctx: &mut Ctx) {
     for h in 0..histories {
         if !ctx.begin_case() { continue; }
         let mut rng: Rng = ctx.rng(0xC16_000 + h as u64);
-        let universe = match h % 5 { 0 => rng.below(12), 1 => 1 + rng.below(300), 2 => 1usize << (10 + rng.below(50)), 3 => usize::MAX - rng.below(3), _ => 1 + rng.below(100000) };
-        let capacity = match h % 4 { 0 => rng.below(8), 1 => 1 + rng.below(60), 2 => rng.below(200), _ => std::cmp::min(universe, rng.below(40)) };
-        // With no values the format spends universe/2 bits on buckets: keep such builders small (allocation failure aborts).
-        let capacity = if universe > (1 << 26) { std::cmp::max(capacity, 1) } else { capacity };
-        let multiset = rng.chance(1, 2);
-        let (mut b, mut m) = match s_new(universe, capacity, multiset) {
-            Ok(Some(x)) => x,
-            Ok(None) => { ctx.case(hash64(&[2, 0, universe as u64, capacity as u64]), false); continue; },
-            Err(e) => { ctx.violation("sparse_builder.new", format!("SparseBuilder::{}({}, {}): {}", if multiset { "multiset" } else { "new" }, universe, capacity, e)); continue; },
-        };
-        let steps = 10 + rng.below(190);
-        let mut log: Vec<String> = Vec::new();
-        let mut kinds: Vec<u64> = vec![multiset as u64];
-        for _ in 0..steps {
-            // About 30 % invalid calls.
-            let valid_value = |rng: &mut Rng, m: &SModel| -> usize {
-                if m.next >= m.universe { return m.universe; }
-                let room = m.universe - m.next;
-                let left = std::cmp::max(1, m.capacity.saturating_sub(m.values.len()));
-                m.next + rng.below(std::cmp::max(1, std::cmp::min(room, (room / left).saturating_add(2))))
-            };
-            let invalid_value = |rng: &mut Rng, m: &SModel| -> usize {
-                match rng.below(4) { 0 => m.universe, 1 => m.universe.saturating_add(rng.below(5)), 2 => if m.next > 0 { rng.below(m.next) } else { m.universe }, _ => usize::MAX }
-            };
-            let v = if rng.chance(7, 10) { valid_value(&mut rng, &m) } else { invalid_value(&mut rng, &m) };
-            let op = match rng.below(10) {
-                0..=3 => SOp::TrySet(v),
-                4..=6 => SOp::Set(v),
-                7 | 8 => { let v2 = if rng.chance(7, 10) { v.saturating_add(1 + rng.below(3)) } else { invalid_value(&mut rng, &m) }; SOp::Extend(vec![v, v2]) },
-                _ => SOp::Convert,
-            };
-            log.push(format!("{:?}", op));
-            kinds.push(hash_str(&format!("{:?}{}", std::mem::discriminant(&op), match &op { SOp::TrySet(x) | SOp::Set(x) => m.accepts(*x), _ => true })));
-            let hist = || format!("{}({}, {}); {}", if multiset { "multiset" } else { "new" }, universe, capacity, log.join("; "));
-            if !s_step(ctx, &mut b, &mut m, &op, &hist) { break; }
-        }
-        let hist = || format!("{}({}, {}); {}; final convert", if multiset { "multiset" } else { "new" }, universe, capacity, log.join("; "));
-        s_step(ctx, &mut b, &mut m, &SOp::Convert, &hist);
-        ctx.case(hash64(&kinds), true);
-        ctx.sample(|| format!("sparse random: {}({}, {}); {}", if multiset { "multiset" } else { "new" }, universe, capacity, log.iter().take(10).cloned().collect::<Vec<_>>().join("; ")));
+        sparse_case(ctx, &mut rng, h);
     }
+}
+
+// One random history on a sparse builder (parameter family `h`); also the entry point of the coverage-guided leg (fuzz.rs).
+pub fn sparse_case(ctx: &mut Ctx, rng: &mut Rng, h: usize) {
+    let universe = match h % 5 { 0 => rng.below(12), 1 => 1 + rng.below(300), 2 => 1usize << (10 + rng.below(50)), 3 => usize::MAX - rng.below(3), _ => 1 + rng.below(100000) };
+    let capacity = match h % 4 { 0 => rng.below(8), 1 => 1 + rng.below(60), 2 => rng.below(200), _ => std::cmp::min(universe, rng.below(40)) };
+    // With no values the format spends universe/2 bits on buckets: keep such builders small (allocation failure aborts).
+    let capacity = if universe > (1 << 26) { std::cmp::max(capacity, 1) } else { capacity };
+    let multiset = rng.chance(1, 2);
+    let (mut b, mut m) = match s_new(universe, capacity, multiset) {
+        Ok(Some(x)) => x,
+        Ok(None) => { ctx.case(hash64(&[2, 0, universe as u64, capacity as u64]), false); return; },
+        Err(e) => { ctx.violation("sparse_builder.new", format!("SparseBuilder::{}({}, {}): {}", if multiset { "multiset" } else { "new" }, universe, capacity, e)); return; },
+    };
+    let steps = 10 + rng.below(190);
+    let mut log: Vec<String> = Vec::new();
+    let mut kinds: Vec<u64> = vec![multiset as u64];
+    for _ in 0..steps {
+        // About 30 % invalid calls.
+        let valid_value = |rng: &mut Rng, m: &SModel| -> usize {
+            if m.next >= m.universe { return m.universe; }
+            let room = m.universe - m.next;
+            let left = std::cmp::max(1, m.capacity.saturating_sub(m.values.len()));
+            m.next + rng.below(std::cmp::max(1, std::cmp::min(room, (room / left).saturating_add(2))))
+        };
+        let invalid_value = |rng: &mut Rng, m: &SModel| -> usize {
+            match rng.below(4) { 0 => m.universe, 1 => m.universe.saturating_add(rng.below(5)), 2 => if m.next > 0 { rng.below(m.next) } else { m.universe }, _ => usize::MAX }
+        };
+        let v = if rng.chance(7, 10) { valid_value(rng, &m) } else { invalid_value(rng, &m) };
+        let op = match rng.below(10) {
+            0..=3 => SOp::TrySet(v),
+            4..=6 => SOp::Set(v),
+            7 | 8 => { let v2 = if rng.chance(7, 10) { v.saturating_add(1 + rng.below(3)) } else { invalid_value(rng, &m) }; SOp::Extend(vec![v, v2]) },
+            _ => SOp::Convert,
+        };
+        log.push(format!("{:?}", op));
+        kinds.push(hash_str(&format!("{:?}{}", std::mem::discriminant(&op), match &op { SOp::TrySet(x) | SOp::Set(x) => m.accepts(*x), _ => true })));
+        let hist = || format!("{}({}, {}); {}", if multiset { "multiset" } else { "new" }, universe, capacity, log.join("; "));
+        if !s_step(ctx, &mut b, &mut m, &op, &hist) { break; }
+    }
+    let hist = || format!("{}({}, {}); {}; final convert", if multiset { "multiset" } else { "new" }, universe, capacity, log.join("; "));
+    s_step(ctx, &mut b, &mut m, &SOp::Convert, &hist);
+    ctx.case(hash64(&kinds), true);
+    ctx.sample(|| format!("sparse random: {}({}, {}); {}", if multiset { "multiset" } else { "new" }, universe, capacity, log.iter().take(10).cloned().collect::<Vec<_>>().join("; ")));
 }
 
 //-----------------------------------------------------------------------------
@@ -388,39 +393,44 @@ fn rl_random(ctx: &mut Ctx) {
     for h in 0..histories {
         if !ctx.begin_case() { continue; }
         let mut rng: Rng = ctx.rng(0xC16_800 + h as u64);
-        let scale_bits = match h % 4 { 0 => 4, 1 => 12, 2 => 40, _ => 62 };
-        let mut b = RLBuilder::new();
-        let mut m = RModel { len: 0, ones: 0, runs: Vec::new() };
-        // Every eighth history is long enough for the converted vector to have ten or more blocks.
-        let steps = if h % 8 == 7 { 600 + rng.below(600) } else { 10 + rng.below(190) };
-        let mut log: Vec<String> = Vec::new();
-        let mut kinds: Vec<u64> = vec![scale_bits as u64];
-        for _ in 0..steps {
-            let step = (rng.magnitude(scale_bits) as usize) / 64;
-            let op = match rng.below(12) {
-                0..=4 => { // valid run (adjacent or after a gap)
-                    let s = if rng.chance(1, 3) { m.len } else { m.len.saturating_add(step) };
-                    let l = std::cmp::min(rng.magnitude(scale_bits) as usize / 64, (usize::MAX - s) / 2);
-                    ROp::TrySet(s, l)
-                },
-                5 => ROp::TrySet(if m.len > 0 { rng.below(m.len) } else { 0 }, rng.below(3)),                  // out of order (valid only when len == 0)
-                6 => ROp::TrySet(m.len.saturating_add(step), usize::MAX - rng.below(4)),                           // overflowing
-                7 => { let s = usize::MAX - rng.below(100); ROp::TrySet(s, usize::MAX - s + rng.below(3)) },       // at the very end
-                8 | 9 => ROp::SetLen(if rng.chance(1, 3) { rng.below(m.len + 1) } else { m.len.saturating_add(step) }),
-                10 => ROp::SetLen(m.len),
-                _ => ROp::Convert,
-            };
-            // Keep the vector inside the documented length domain, so that conversion must succeed.
-            let ok_len = match &op { ROp::TrySet(s, l) => !m.accepts(*s, *l) || s + l <= usize::MAX - 64, ROp::SetLen(n) => *n <= usize::MAX - 64, ROp::Convert => true };
-            if !ok_len { continue; }
-            log.push(format!("{:?}", op));
-            kinds.push(hash_str(&format!("{:?}{}", std::mem::discriminant(&op), match &op { ROp::TrySet(s, l) => m.accepts(*s, *l), _ => true })));
-            let hist = || format!("RLBuilder::new(); {}", log.join("; "));
-            if !r_step(ctx, &mut b, &mut m, &op, &hist) { break; }
-        }
-        let hist = || format!("RLBuilder::new(); {}; final convert", log.join("; "));
-        r_step(ctx, &mut b, &mut m, &ROp::Convert, &hist);
-        ctx.case(hash64(&kinds), true);
-        ctx.sample(|| format!("rl random: {}", log.iter().take(10).cloned().collect::<Vec<_>>().join("; ")));
+        rl_case(ctx, &mut rng, h);
     }
+}
+
+// One random history on a run-length builder (scale family `h`); also the entry point of the coverage-guided leg (fuzz.rs).
+pub fn rl_case(ctx: &mut Ctx, rng: &mut Rng, h: usize) {
+    let scale_bits = match h % 4 { 0 => 4, 1 => 12, 2 => 40, _ => 62 };
+    let mut b = RLBuilder::new();
+    let mut m = RModel { len: 0, ones: 0, runs: Vec::new() };
+    // Every eighth history is long enough for the converted vector to have ten or more blocks.
+    let steps = if h % 8 == 7 { 600 + rng.below(600) } else { 10 + rng.below(190) };
+    let mut log: Vec<String> = Vec::new();
+    let mut kinds: Vec<u64> = vec![scale_bits as u64];
+    for _ in 0..steps {
+        let step = (rng.magnitude(scale_bits) as usize) / 64;
+        let op = match rng.below(12) {
+            0..=4 => { // valid run (adjacent or after a gap)
+                let s = if rng.chance(1, 3) { m.len } else { m.len.saturating_add(step) };
+                let l = std::cmp::min(rng.magnitude(scale_bits) as usize / 64, (usize::MAX - s) / 2);
+                ROp::TrySet(s, l)
+            },
+            5 => ROp::TrySet(if m.len > 0 { rng.below(m.len) } else { 0 }, rng.below(3)),                  // out of order (valid only when len == 0)
+            6 => ROp::TrySet(m.len.saturating_add(step), usize::MAX - rng.below(4)),                           // overflowing
+            7 => { let s = usize::MAX - rng.below(100); ROp::TrySet(s, usize::MAX - s + rng.below(3)) },       // at the very end
+            8 | 9 => ROp::SetLen(if rng.chance(1, 3) { rng.below(m.len + 1) } else { m.len.saturating_add(step) }),
+            10 => ROp::SetLen(m.len),
+            _ => ROp::Convert,
+        };
+        // Keep the vector inside the documented length domain, so that conversion must succeed.
+        let ok_len = match &op { ROp::TrySet(s, l) => !m.accepts(*s, *l) || s + l <= usize::MAX - 64, ROp::SetLen(n) => *n <= usize::MAX - 64, ROp::Convert => true };
+        if !ok_len { continue; }
+        log.push(format!("{:?}", op));
+        kinds.push(hash_str(&format!("{:?}{}", std::mem::discriminant(&op), match &op { ROp::TrySet(s, l) => m.accepts(*s, *l), _ => true })));
+        let hist = || format!("RLBuilder::new(); {}", log.join("; "));
+        if !r_step(ctx, &mut b, &mut m, &op, &hist) { break; }
+    }
+    let hist = || format!("RLBuilder::new(); {}; final convert", log.join("; "));
+    r_step(ctx, &mut b, &mut m, &ROp::Convert, &hist);
+    ctx.case(hash64(&kinds), true);
+    ctx.sample(|| format!("rl random: {}", log.iter().take(10).cloned().collect::<Vec<_>>().join("; ")));
 }
